@@ -504,6 +504,19 @@ func (rn *runner) mismatch(idx int, cf conf, hist []query, pos int, got string, 
 			continue
 		}
 		if a := out.Answers[0][1]; a != want {
+			// confirm: the pair must reproduce, and q alone must still give the fresh answer; otherwise the
+			// difference comes from q itself not being deterministic
+			again, ok2 := rn.child(cf, []query{p, q}, 1)
+			alone, ok3 := rn.child(cf, []query{q}, 1)
+			if ok3 && alone.Answers[0][0] != want {
+				wit["fresh_process_answers"] = map[string]int{want: 1, alone.Answers[0][0]: 1}
+				rn.c.Violation(idx, "fresh-nondeterministic/"+q.Kind+"/"+diffKind(q, alone.Answers[0][0], want), wit,
+					"%s under %s: fresh processes that are asked only this question give different answers (%q, %q)", q.show(), cf.Name, want, alone.Answers[0][0])
+				return
+			}
+			if ok2 && again.Answers[0][1] == want {
+				continue
+			}
 			wit["minimal_history"] = []query{p, q}
 			wit["answer_after_minimal_history"] = a
 			rel := "other-input"
